@@ -30,7 +30,8 @@ PROPS = {
                        'functions the theorems are about; the C12 clauses are also re-checked on every implementation output',
     },
     'C14': {
-        'families': [gen('rewards', 30, 120), gen('token', 30, 120), gen('dust', 20, 120)],
+        'corpus': ['crowd-migrate.ops'],
+        'families': [gen('rewards', 30, 120), gen('token', 30, 120), gen('dust', 20, 120), gen('crowd', 8, 160)],
         'slice': REWARD_SLICE,
         'explanation': 'reward-contract invariant (sum of holders dues <= recorded balance <= bank balance, claims pay whole units) '
                        'proved for every message sequence; histories of index updates, mints/burns/transfers and claims incl. updates with no holders',
@@ -42,8 +43,8 @@ PROPS = {
                        'the same statements are re-evaluated on every implementation step from Holder/State/AccruedRewards queries',
     },
     'C18': {
-        'corpus': ['D4.ops'],
-        'families': [gen('token', 30, 120), gen('tokeninit', 30, 100), gen('mixed', 15, 120)],
+        'corpus': ['D4.ops', 'crowd-migrate.ops'],
+        'families': [gen('token', 30, 120), gen('tokeninit', 30, 100), gen('mixed', 15, 120), gen('crowd', 8, 160)],
         'slice': [r'tok\..*', r'inst\.bsei', r'inst\.stsei', r'hub\.bond', r'hub\.bondst'],
         'explanation': 'ledger invariant (sum of balances = supply) proved for every instantiate message and every message sequence of both token flavours; '
                        'mint/burn authority and allowance bounds proved per message; histories by holders, spenders and the hub, all instantiate shapes incl. repeated addresses',
@@ -102,8 +103,9 @@ PROPS = {
                        '2^3 reward UpdateConfig patterns with in-range, boundary and out-of-range values, and instantiate messages over the same value classes',
     },
     'C16': {
-        'families': [gen('token', 30, 120), gen('mixed', 20, 120), gen('rewards', 10, 120)],
-        'slice': [r'tok\..*', r'reward\.inc', r'reward\.dec', r'hub\.bond', r'inst\.bsei', r'inst\.reward'],
+        'corpus': ['crowd-migrate.ops'],
+        'families': [gen('token', 30, 120), gen('mixed', 20, 120), gen('rewards', 10, 120), gen('crowd', 10, 200)],
+        'slice': [r'tok\..*', r'reward\.inc', r'reward\.dec', r'hub\.bond', r'inst\.bsei', r'inst\.reward', r'env\.migrate'],
         'explanation': 'mirror invariant through the message queue proved for every bSei message and every mirror message; Balance/TokenInfo vs Holder/State compared for the whole cast after every operation of token histories by holders, spenders and the hub',
     },
     'C02': {
@@ -119,7 +121,7 @@ PROPS = {
         'explanation': 'claim-sum invariant proved over unbond (both tokens), batch closing, release and withdrawal; on the implementation the sum of UnbondRequests over all users per batch is compared with CurrentBatch / AllHistory after every step, with Send and SendFrom, both tokens in one batch, across epoch boundaries',
     },
     'C08': {
-        'corpus': ['undelegation-refused.ops'],
+        'corpus': ['undelegation-refused.ops', 'epoch-changed-midlife.ops'],
         'families': [gen('release', 35, 120), gen('mixed', 20, 120), gen('dust', 10, 120)],
         'slice': [r'tok\.send\.unbond', r'tok\.sendfrom\.unbond', r'hub\.withdraw', r'env\.advance', r'hub\.uparams'],
         'explanation': 'epoch gate, single write of consecutive batch ids, release only after the unbonding period, finality of released entries proved on the model; AllHistory snapshots compared between all steps with time advances landing on, one before and one after the epoch and maturity boundaries',
@@ -143,7 +145,7 @@ PROPS = {
         'explanation': 'hub / distribution / dispatcher / re-bond / reward-index steps proved separately and composed; whole UpdateGlobalIndex transactions (incl. those triggered by validator removal) on the minichain: pending rewards zero afterwards, dispatcher empty, stSei pool up by exactly the re-bonded amount, no mint, claims and hub balance untouched, accrued grows by the delivered amount within dust',
     },
     'C09': {
-        'corpus': ['D6b.ops', 'D5.ops'],
+        'corpus': ['D6b.ops', 'D5.ops', 'epoch-changed-midlife.ops'],
         'families': [gen('mixed', 25, 100, deep=True), gen('dust', 20, 100, deep=True), gen('release', 15, 100, deep=True), gen('stubs', 20, 100, deep=True)],
         'slice': [r'tok\.send\.unbond', r'tok\.sendfrom\.unbond', r'hub\.withdraw', r'hub\.bond', r'hub\.bondst', r'tok\.send\.convert', r'tok\.transfer', r'reward\.claim', r'env\.oracle', r'env\.swap'],
         'explanation': 'hub-side liveness of unbond proved from explicit invariant premises; non-interference proved structurally (exit handlers do not read stub state); on the implementation: dry-run unbond of every holder on cloned states after every step, withdrawal after epoch+unbonding on clones, every exit operation re-executed under failing / garbage swap and oracle stubs and compared, calls to swap/oracle from exit paths flagged',
